@@ -582,7 +582,7 @@ func genName(rt *rapid.T, hot, fileCodes []string, disabled []string, first bool
 	} else {
 		base = "SA4000"
 	}
-	if base == "U1000" && len(fileCodes) > 0 && rng(rt, "avoidU", 0, 2) > 0 {
+	if base == "U1000" && len(hot) == 0 && len(fileCodes) > 0 && rng(rt, "avoidU", 0, 2) > 0 {
 		base = pick(rt, "fileid", fileCodes)
 	}
 	k := rng(rt, "namekind", 0, 99)
@@ -666,6 +666,24 @@ func genCase(rt *rapid.T, hints map[int][]hint, nvariants int) (*Case, error) {
 	var snA []int
 	for i := 0; i < nsn; i++ {
 		snA = append(snA, rng(rt, "snippet", 0, len(snippets)-1))
+	}
+	// by construction (per the calibration hints): at least 10 problems of at least 6 checks in a.go
+	for _, name := range []string{"twin_line", "printf", "var_group", "st1005", "sa1019", "s1021", "unused_funcs", "yoda", "sa4006"} {
+		np, codes := 0, map[string]bool{}
+		for _, si := range snA {
+			for _, h := range hints[si] {
+				np++
+				codes[h.Code] = true
+			}
+		}
+		if np >= 10 && len(codes) >= 6 {
+			break
+		}
+		for si := range snippets {
+			if snippets[si].Name == name {
+				snA = append(snA, si)
+			}
+		}
 	}
 	twin := rng(rt, "twinfile", 0, 9) < 4
 	snB := snA
@@ -784,7 +802,7 @@ func genCase(rt *rapid.T, hints map[int][]hint, nvariants int) (*Case, error) {
 		if fileIgnore {
 			d.Kind = "file-ignore"
 		}
-		// placement: 10% any line; 50% driven by a line that (per the hints) carries a problem;
+		// placement: 7% any line; 67% driven by a line that (per the hints) carries a problem;
 		// else a placement kind first (so that rare kinds are not drowned by statements), then a site
 		var cd cand
 		var hotLines []int
@@ -798,7 +816,7 @@ func genCase(rt *rapid.T, hints map[int][]hint, nvariants int) (*Case, error) {
 			if cd.Trailing && cd.Line > len(gf.lines) {
 				cd.Line = len(gf.lines)
 			}
-		case r < 68 && len(hotLines) > 0:
+		case r < 74 && len(hotLines) > 0:
 			// prefer lines with a second check on the same line or a problem on a neighbouring line
 			var rich []int
 			for _, l := range hotLines {
@@ -807,7 +825,7 @@ func genCase(rt *rapid.T, hints map[int][]hint, nvariants int) (*Case, error) {
 				}
 			}
 			from := hotLines
-			if len(rich) > 0 && rng(rt, "richline", 0, 9) < 6 {
+			if len(rich) > 0 && rng(rt, "richline", 0, 9) < 8 {
 				from = rich
 			}
 			l := pick(rt, "hotline", from)
